@@ -528,7 +528,17 @@ func checkC09(r *Run) {
 					if o == nil || o.T.K != "struct" {
 						return true
 					}
-					return cs.Validator.Validate(o.Name, mustJSONBytes(v)) == nil
+					// the element belongs to this branch when it carries the branch's constants (discriminator)
+					m, isObj := v.(map[string]any)
+					if !isObj {
+						return false
+					}
+					for _, f := range o.T.Fields {
+						if f.T.K == "const" && fmt.Sprint(m[f.Name]) != fmt.Sprint(f.T.Const) {
+							return false
+						}
+					}
+					return true
 				}
 				singles := map[string]int{}
 				for di, d := range cs.Docs[obj.Name] {
